@@ -70,6 +70,12 @@ func (s *State) memclr(p Ptr, n *Term) {
 		p.Obj.Arr = nil
 		return
 	}
+	if p.SOff != nil && n.Op == OConst && n.Val <= 4096 {
+		for i := 0; i < int(n.Val); i++ {
+			s.storeRaw(ptrAdd(p, Const(64, uint64(i))), 1, Const(8, 0))
+		}
+		return
+	}
 	if p.Obj.Arr != nil {
 		c := s.concretize(n, 4096, "memclr length")
 		if p.SOff != nil {
